@@ -30,6 +30,9 @@ impl LazyBigint {
     pub fn to_i64(&self) -> (r: Option<i64>)
         ensures r == (if i64::MIN <= self.val() <= i64::MAX { Some(self.val() as i64) } else { None::<i64> }),
     { unimplemented!() }
+    /// LazyBigint::sign (util/lazy_bigint.rs, under contract in V-int)
+    #[verifier::external_body]
+    pub fn sign(&self) -> (r: i8) ensures r == (if self.val() > 0 { 1i8 } else if self.val() < 0 { -1i8 } else { 0i8 }) { unimplemented!() }
     #[verifier::external_body]
     pub fn signum(&self) -> (r: LazyBigint) ensures r.val() == (if self.val() > 0 { 1int } else if self.val() < 0 { -1int } else { 0int }) { unimplemented!() }
 }
